@@ -65,7 +65,7 @@ def decision_structure(f):
     return res
 
 
-def run(ck):
+def _run_own(ck):
     facts = ck.facts
     ck.decided('D1 decision structure of equal_graph_with_options: Some(true) only under is_identity of (adjoint of one argument plugged with the OTHER argument, fully simplified), with the scalar-argument test in exact mode; Some(false) only on a dimension mismatch or (identity, exact mode, non-zero argument); None otherwise',
                'D2 equal_graph_tensor: false on dimension mismatch, otherwise exactly to_tensor4() == to_tensor4() of the two different arguments; equal_graph_dim compares both input and output counts; wrappers pass their arguments through in order',
@@ -142,3 +142,8 @@ def run(ck):
     fx = fixture()
     r2 = decision_structure(fx['fns']['equality::equal_graph_with_options'])
     ck.control('R-PATH flags a comparison of a graph with itself', not r2['composes the adjoint of one argument with the OTHER argument, then simplifies'])
+
+
+def run(ck, **kw):
+    _run_own(ck)
+    ck.include('C01', 'a definite answer is read off the simplified diagram: rule applications in simplify.rs must be guarded', parts=['D1', 'D2'])
